@@ -19,7 +19,7 @@ RULE = ("cases: PSD / PD operators of every class (nestings to depth 2, n 1..6, 
         "(a random noise vector reproduces M z); M M^T = I_k (x) blockdiag_b(A_b) to the accuracy of the root used (Cholesky: direct; "
         "Lanczos root identified through lanczos.* hook events: jitter tolerance, kappa <= 100; contour-integral variant: 1e-4; "
         "contour-integral sampling through an active pivoted-Cholesky preconditioner (AddedDiag, thresholds lowered): R R^T = A with basis noise, 1e-3). "
-        "distinct key = (root class, sampler path, k, settings key, dtype, batch rank)")
+        "distinct key = (root class, sampler path, k, settings key, dtype, batch rank) [round 4: one warm-up query (diagonalization, logdet, cholesky, root_inv, eigh, svd, Lanczos inverse root) may precede sampling: the cached factorization steers the sampler's root method; Lanczos-path failures carry the tag batch_member_repeated_eigenvalue when a batched part has a member with a repeated eigenvalue]")
 ASSUMPTIONS = ["every base draw of a sampler goes through torch.randn (checked: a sampler whose recorded noise has zero elements is inconclusive)",
                "float64 dense covariance is the reference"]
 REQUIRED_STATS = ("samplers_probed", "sampler_calls")
